@@ -188,6 +188,24 @@ def check(ctx):
                 found["value"] = (node, kinds, exc)
             elif sd_var in vars_:
                 found["sd"] = (node, kinds, exc)
+        # validation factored out into a helper: look one level into package callees that receive the variable
+        if found["value"] is None or found["sd"] is None:
+            from ..model import bind_args as _bind
+
+            for c, tg in prog.calls_in(entry):
+                for t in tg:
+                    if not isinstance(t, FunctionInfo) or t is rec:
+                        continue
+                    b = _bind(t, c)
+                    for which, var in (("value", val_var), ("sd", sd_var)):
+                        if found[which] is not None or var is None:
+                            continue
+                        ps = [p_ for p_, e in b.items() if canon(e) == var]
+                        if not ps:
+                            continue
+                        for node, kinds, exc in validation_tests(prog, t):
+                            if ps[0] in {k[1] for k in kinds if k}:
+                                found[which] = (node, [(k[0], var) if k and k[1] == ps[0] else k for k in kinds], exc)
         summaries[entry.name] = {}
         for which, var, need in (("value", val_var, ["not-isscalar", "not-isfinite", "not-isreal"]), ("sd", sd_var, ["not-isscalar", "not-isfinite", "not-isreal", "<=0"])):
             if found[which] is None:
